@@ -232,7 +232,10 @@ def Shard.drop (s : Shard) (addr : Addr) : Shard × List (Change Net) :=
 /-- `collect_loc_rib_paths_limited` -/
 def Shard.collect (s : Shard) (maxPaths : Option Nat) : List (Change Net) :=
   s.dests.filterMap (fun d =>
-    let ps := (match maxPaths with | some n => d.entries.take n | none => d.entries).map (·.path)
+    let es : List RibEntry := match maxPaths with
+      | some n => d.entries.take n
+      | none => d.entries
+    let ps := es.map (·.path)
     if ps.isEmpty then none else some ⟨d.net, d.id, true, true, none, ps⟩)
 
 /-! ## The observing session -/
